@@ -177,7 +177,8 @@ def write_evidence(pid, tier, seed, plan, obs, violations, known_hits, und_notes
     import z3
     known_obs = {n for n, _ in known_hits}
     viol_obs = {n for n, _ in violations}
-    counted = {n: o for n, o in obs.items() if n not in known_obs}
+    # bounded stand-ins are never counted as proved obligations
+    counted = {n: o for n, o in obs.items() if n not in known_obs and "/bounded:" not in n}
     n_ob = len(counted)
     n_dis = sum(1 for o in counted.values() if not o["n_failed"] and not o["n_undecided"])
     level = plan.get("level", "proof")
